@@ -137,8 +137,8 @@ def install_conversion_contracts():
     from gaftools.cli import view
     M.attach([conversion, view], "to_stable", post=post_to_stable, snapshots=[(snap_line, "rec")])
     M.attach([conversion, view], "to_unstable", post=post_to_unstable, snapshots=[(snap_line, "rec")])
-    M.attach(conversion, "merge_nodes", post=post_merge_nodes)
-    M.attach(utils, "search_intervals", post=post_search_intervals)
-    M.attach(utils, "reverse_cigar", post=post_reverse_cigar)
+    M.attach(conversion, "merge_nodes", post=post_merge_nodes, optional=True)
+    M.attach(utils, "search_intervals", post=post_search_intervals, optional=True)
+    M.attach(utils, "reverse_cigar", post=post_reverse_cigar, optional=True)
     for text, name in (("cases = 1", "overlap_case1"), ("cases = 2", "overlap_case2"), ("cases = 3", "overlap_case3")):
         M.PROBES.count_text(conversion.to_unstable, text, name)
